@@ -458,6 +458,8 @@ pub fn write_string(s: &str, out: &mut Vec<u8>, st: &Style, rng: &mut Rng) {
 
 pub fn write_num(n: &Num, out: &mut Vec<u8>, st: &Style, rng: &mut Rng) {
     match n {
+        // integer zero may be spelled with a sign: `-0` is the integer zero, not a float
+        Num::I(0) | Num::U(0) if st.numvar && rng.chance(1, 4) => out.extend_from_slice(b"-0"),
         Num::I(v) => out.extend_from_slice(v.to_string().as_bytes()),
         Num::U(v) => out.extend_from_slice(v.to_string().as_bytes()),
         Num::F(b) => {
